@@ -1222,8 +1222,8 @@ def mutations(crown, kinds, base):
             for i, w in enumerate(WRONG_FOR_DICT):
                 out.append((f"wrongkind{i}:dict@{ps}", set_at(base, path, w)))
             cur = get_at(base, path)
-            out.append((f"extra1@{ps}", set_at(base, path, {**cur, "zz_unknown": 1})))
-            out.append((f"extra2@{ps}", set_at(base, path, {"u_first": [1], **cur, "zz_unknown": None})))
+            out.append((f"extra1@{ps}", set_at(base, path, {**cur, "zz_Unknown": 1})))
+            out.append((f"extra2@{ps}", set_at(base, path, {"U_first": [1], **cur, "zz_Unknown": None})))
             out.append((f"empty:dict@{ps}", set_at(base, path, {})))
         elif t == "list":
             for i, w in enumerate(WRONG_FOR_LIST):
@@ -1268,7 +1268,7 @@ def combined_mutations(rng, crown, kinds, base, singles, n):
                 elif t == "dict":
                     cur = get_at(datum, path)
                     if r < 0.4 and isinstance(cur, dict):
-                        datum = set_at(datum, path, {**cur, f"zz{len(labels)}": 0})
+                        datum = set_at(datum, path, {**cur, f"Zz{len(labels)}": 0})
                         labels.append("extra")
                     elif r < 0.7:
                         datum = set_at(datum, path, rng.choice(WRONG_FOR_DICT))
@@ -1655,6 +1655,9 @@ def oracle_crown_load(ctx, prog, label, datum, mode, strict, real_out, suite="ge
                 return
         # unknown keys
         expected_extra = py_extra_skeleton(prog["crown"], datum)
+        if not py_datum_valid(prog, datum, strict):
+            # (reported above as wrong-kind / missing-required / ill-typed accepted)
+            return
         mv = prog["move"]
         root_collect = prog["crown"].get("policy") == "collect"
         if mv == "kwargs" and branch_keys:
@@ -1692,6 +1695,10 @@ def oracle_crown_load(ctx, prog, label, datum, mode, strict, real_out, suite="ge
                     ctx.fail(f"{suite}:forbid-accepted", f"{mode}/{strict}: unknown keys at {list(path)} accepted by ExtraForbid", case)
                     return
     else:
+        if real_out["r"] in ("error", "aggregate") and py_datum_valid(prog, datum, strict):
+            ctx.fail(f"{suite}:valid-datum-rejected", f"{mode}/{strict}: the datum is valid for the layout (every field "
+                     f"present at its path with an acceptable value, nothing forbidden) but loading raised {real_out}", case)
+            return
         errs = real_out.get("es") or ([real_out["e"]] if "e" in real_out else [])
         for e in errs:
             if e.get("cls") == "ExtraFieldsLoadError":
@@ -1741,11 +1748,16 @@ def oracle_crown_load(ctx, prog, label, datum, mode, strict, real_out, suite="ge
 def py_extra_skeleton(crown, data):
     """Unknown keys per dict node, delivered at the mirrored position (see ASSUMPTIONS): for a dict node the
     items of the datum whose key is not in the node's map (only if the node collects), plus one entry per
-    nested branch; for a list node one entry per element ({} for leaves)."""
+    nested branch; for a list node one entry per element ({} for leaves).  `MISSHAPEN` where the datum does not
+    have the shape of the crown (then a successful load is reported by the path checks, not here)."""
     if crown["t"] == "dict":
+        if type(data) is not dict:
+            return MISSHAPEN
         out = {}
         for k, c in crown["map"]:
             if c["t"] in ("dict", "list"):
+                if k not in data:
+                    return MISSHAPEN
                 out[k] = py_extra_skeleton(c, data[k])
         if crown["policy"] == "collect":
             known = {k for k, _ in crown["map"]}
@@ -1754,8 +1766,47 @@ def py_extra_skeleton(crown, data):
                     out[k] = v
         return out
     if crown["t"] == "list":
+        if type(data) not in (list, str) or len(data) < len(crown["map"]):
+            return MISSHAPEN
         return [py_extra_skeleton(c, data[i]) if c["t"] in ("dict", "list") else {} for i, c in enumerate(crown["map"])]
     return {}
+
+
+MISSHAPEN = Opaque("datum does not have the shape of the documented layout")
+
+
+def py_datum_valid(prog, datum, strict) -> bool:
+    """the datum is valid for the documented layout: every container of the right kind, every required element
+    present, every field value accepted by its loader, no unknown key / extra item at a forbidding node"""
+    by_id = {f["id"]: f for f in prog["fields"]}
+    kinds = {f["id"]: f["type"] for f in prog["fields"]}
+
+    def ok(c, d):
+        t = c["t"]
+        if t == "dict":
+            if type(d) is not dict:
+                return False
+            for k, sub in c["map"]:
+                if sub["t"] == "none":
+                    continue
+                if k not in d:
+                    if sub["t"] == "field" and not by_id[sub["id"]]["required"]:
+                        continue
+                    return False
+                if not ok(sub, d[k]):
+                    return False
+            return c["policy"] != "forbid" or not (set(d) - {k for k, _ in c["map"]})
+        if t == "list":
+            if type(d) is not list:
+                return False
+            if len(d) < len(c["map"]) or (c["policy"] == "forbid" and len(d) != len(c["map"])):
+                return False
+            return all(ok(sub, d[i]) for i, sub in enumerate(c["map"]))
+        if t == "field":
+            kind = kinds[c["id"]]
+            return kind == "any" or (kind == "str" and type(d) is str) or (kind in ("int", "neg") and type(d) is int)
+        return True
+    return ok(prog["crown"], datum)
 
 
 def suite_gen_load(ctx: Ctx, real: Real, drv, n_programs: int, n_combo: int):
@@ -2113,16 +2164,22 @@ def oracle_crown_dump(ctx, prog, label, obj, extract, mode, real_out, suite="gen
             out[k] = v
         return True, out
 
-    _, want = expect(prog["crown"], True)
-    if prog["move"] is not None and isinstance(want, dict):
-        extra = {}
-        if prog["move"] == "extract":
-            extra = dict(extract["v"])
-        else:
-            for t in targets:
-                if t in obj:
-                    extra.update(obj[t])
-        want = {**want, **extra}
+    try:
+        _, want = expect(prog["crown"], True)
+        if prog["move"] is not None and isinstance(want, dict):
+            extra = {}
+            if prog["move"] == "extract":
+                extra = dict(extract["v"])
+            else:
+                for t in targets:
+                    if t in obj:
+                        extra.update(obj[t])
+            want = {**want, **extra}
+    except (TypeError, KeyError, ValueError, AttributeError):
+        # the object was generated for the real layout and does not fit the documented one (e.g. a target field
+        # that does not hold a mapping): nothing is prescribed for it
+        ctx.dist["oracle-skipped"] += 1
+        return
     if real_out["v"] != safe_enc(want):
         sig = f"{suite}:wrong-output"
         where = first_difference(real_out["v"], safe_enc(want))
@@ -2352,11 +2409,21 @@ def observe_model_obj(prog, move):
 
 
 def kwargs_binding(field_ids, model_out):
-    """`constructor(name=f_name, ..., **extra)`: a key of `extra` equal to a parameter name is a TypeError of the
-    call itself (documented flaw of ExtraKwargs; call binding is C08's subject)"""
+    """Python call binding of `constructor(name=f_name, ..., **extra)` (constructor-call planning is C08's subject):
+    a key of `extra` equal to the name of a parameter that is passed explicitly is a TypeError of the call itself
+    (documented flaw of ExtraKwargs); equal to the name of a parameter that is *not* passed (a skipped field), it
+    binds that parameter."""
     if model_out and model_out.get("r") == "ok" and isinstance(model_out.get("extra"), dict) and "dict" in model_out["extra"]:
-        if any(k in field_ids for k, _ in model_out["extra"]["dict"]):
-            return {"r": "escape", "cls": "TypeError"}
+        args = dict(model_out["args"])
+        rest = []
+        for k, v in model_out["extra"]["dict"]:
+            if k in field_ids:
+                if k in args:
+                    return {"r": "escape", "cls": "TypeError"}
+                args[k] = v
+            else:
+                rest.append([k, v])
+        return {**model_out, "args": args, "extra": {"dict": rest}}
     return model_out
 
 
@@ -2406,7 +2473,7 @@ def suite_models(ctx: Ctx, real: Real, drv, n_programs: int, n_combo: int):
             for path, c in crown_sites(py[0]):
                 if c["t"] == "dict":
                     data.append(("doc-extra@" + "/".join(map(str, path)),
-                                 set_at(pbase, path, {**get_at(pbase, path), "zz_unknown": 1})))
+                                 set_at(pbase, path, {**get_at(pbase, path), "zz_Unknown": 1})))
                 if c["t"] == "field" and not next(f for f in prog["fields"] if f["id"] == c["id"])["required"]:
                     data.append(("doc-absent@" + "/".join(map(str, path)), del_at(pbase, path)))
         for mode in MODES:
@@ -2549,10 +2616,15 @@ def run(ctx: Ctx):
             drv = Driver("drv_c03")
         except InfraError:
             drv = None
-    suite_layouts(ctx, real, drv, ctx.budget(400, 6000))
-    suite_gen_load(ctx, real, drv, ctx.budget(60, 1500), n_combo=ctx.budget(6, 10))
-    suite_gen_dump(ctx, real, drv, ctx.budget(120, 2500), n_combo=ctx.budget(5, 10))
-    suite_models(ctx, real, drv, ctx.budget(80, 1500), n_combo=ctx.budget(4, 8))
+    suite_layouts(ctx, real, drv, ctx.budget(1000, 8000))
+    suite_gen_load(ctx, real, drv, ctx.budget(170, 1600), n_combo=ctx.budget(6, 10))
+    suite_gen_dump(ctx, real, drv, ctx.budget(300, 2500), n_combo=ctx.budget(5, 10))
+    suite_models(ctx, real, drv, ctx.budget(230, 1800), n_combo=ctx.budget(4, 8))
+    ctx.extra["oracle_cases_skipped"] = ctx.dist.get("oracle-skipped", 0)
+    # ./check starts the directed search only when no oracle failure at all was seen; the listed known finding is
+    # seen on every run, so a broken correspondence is followed up here
+    if ctx.disagreements and not new_failures(ctx):
+        search(ctx)
 
 
 def oracle_program(ctx: Ctx, real: Real, prog, n_combo=4):
@@ -2609,9 +2681,19 @@ def oracle_program(ctx: Ctx, real: Real, prog, n_combo=4):
                 oracle_crown_dump(ctx, oprog, label, obj, ex_model, mode, real_o, suite="model-dump")
 
 
+def new_failures(ctx: Ctx) -> int:
+    """oracle failures whose signature is not a listed known finding"""
+    from harness import core
+    known = {f["signature"] for f in core.load_known_findings(ID)[0]}
+    return sum(1 for f in ctx.failures if f["signature"] not in known)
+
+
 def search(ctx: Ctx):
     """Directed search after a broken tie: the direct oracle on the disagreeing cases / programs first, then the
     whole generators with a larger budget (real code only)."""
+    if ctx.extra.get("searched"):
+        return
+    ctx.extra["searched"] = True
     real = Real()
     seen = set()
     for d in ctx.disagreements[:300]:
@@ -2627,17 +2709,22 @@ def search(ctx: Ctx):
         except InfraError:
             raise
         except Exception:  # noqa: BLE001,S110 - a case that cannot be rebuilt is skipped, the budgeted search follows
-            pass
-        if ctx.failures:
+            ctx.dist["search-case-skipped"] += 1
+        if new_failures(ctx):
             return
     suite_gen_load(ctx, real, None, 250, n_combo=8)
-    if not ctx.failures:
+    if not new_failures(ctx):
         suite_gen_dump(ctx, real, None, 400, n_combo=8)
-    if not ctx.failures:
+    if not new_failures(ctx):
         for _ in range(250):
             prog = gen_program(ctx.rng, oracle_friendly=True)
-            oracle_program(ctx, real, prog)
-            if ctx.failures:
+            try:
+                oracle_program(ctx, real, prog)
+            except InfraError:
+                raise
+            except Exception:  # noqa: BLE001
+                ctx.dist["search-case-skipped"] += 1
+            if new_failures(ctx):
                 break
 
 
